@@ -35,7 +35,7 @@ def main():
 
     def work(j, k):
         v, r = slots[k]
-        cp.run("git checkout -q -- .", r)
+        cp.run("git checkout -q -- . && git clean -fdq src tests", r)
         rc, out = cp.run("git apply %s" % j["patch"], r)
         if rc:
             j["got"] = "patch does not apply"
@@ -46,7 +46,7 @@ def main():
         vio = [l for l in o.split("\n") if l.startswith("VIOLATION")]
         j["got"] = "caught" if (p.returncode != 0 and vio) else "quiet" if p.returncode == 0 else "rc=%d" % p.returncode
         j["line"] = vio[0] if vio else ""
-        cp.run("git checkout -q -- .", r)
+        cp.run("git checkout -q -- . && git clean -fdq src tests", r)
 
     cp.pool(work, jobs, nslots)
     bad = 0
